@@ -97,7 +97,7 @@ func c20ParamDeps(v ssa.Value) []string {
 		}
 		seen[v] = true
 		if p, ok := v.(*ssa.Parameter); ok {
-			out = append(out, p.Name())
+			out = append(out, eng.VarName(p))
 			return
 		}
 		in, ok := v.(ssa.Instruction)
